@@ -1,4 +1,529 @@
 package main
 
-func cmdCheck(args []string) int  { return 3 }
-func cmdReplay(args []string) int { return 3 }
+import (
+	"crypto/sha256"
+	"encoding/hex"
+	"encoding/json"
+	"flag"
+	"fmt"
+	"os"
+	"os/exec"
+	"path/filepath"
+	"runtime"
+	"sort"
+	"strconv"
+	"strings"
+	"time"
+
+	"verifeng/symex"
+)
+
+type KnownFinding struct {
+	Property string `json:"property"`
+	Harness  string `json:"harness"`
+	Kind     string `json:"kind"`  // assert | panic
+	Label    string `json:"label"` // assertion label, or panic site "file.go:line" / function name
+	Status   string `json:"status"` // known | fixed
+	Commit   string `json:"commit,omitempty"`
+	What     string `json:"what"`
+}
+
+func loadKnown() []KnownFinding {
+	b, err := os.ReadFile(filepath.Join(verifRoot, "known_findings.json"))
+	if err != nil {
+		return nil
+	}
+	var k struct {
+		Findings []KnownFinding `json:"findings"`
+	}
+	if json.Unmarshal(b, &k) != nil {
+		return nil
+	}
+	return k.Findings
+}
+
+func matchKnown(known []KnownFinding, prop, harness string, v symex.Violation) *KnownFinding {
+	for i := range known {
+		k := &known[i]
+		if k.Status != "known" || k.Property != prop || k.Harness != harness || k.Kind != v.Kind {
+			continue
+		}
+		if v.Kind == "assert" && k.Label == v.Label {
+			return k
+		}
+		if v.Kind == "panic" && k.Label != "" && strings.Contains(v.Pos, k.Label) {
+			return k
+		}
+	}
+	return nil
+}
+
+type replayFile struct {
+	Harness  string   `json:"harness"`
+	Pkg      string   `json:"pkg"`
+	Func     string   `json:"func"`
+	Property string   `json:"property"`
+	Kind     string   `json:"kind"`
+	Label    string   `json:"label"`
+	Pos      string   `json:"pos"`
+	Values   []string `json:"values"`
+	Names    []string `json:"names"`
+	Cuts     []string `json:"cuts"`
+	Digest   string   `json:"source_digest"`
+}
+
+// harnessFuncs lists the harness functions (Verif*) declared in overlay files of a package directory.
+func harnessFuncs(pkgRel string) []string {
+	dir := filepath.Join(verifRoot, "harness", "overlay", pkgRel)
+	ents, _ := os.ReadDir(dir)
+	var out []string
+	for _, e := range ents {
+		if !strings.HasSuffix(e.Name(), ".go") {
+			continue
+		}
+		b, _ := os.ReadFile(filepath.Join(dir, e.Name()))
+		for _, line := range strings.Split(string(b), "\n") {
+			if strings.HasPrefix(line, "func Verif") && strings.Contains(line, "()") {
+				name := strings.TrimPrefix(line, "func ")
+				name = name[:strings.Index(name, "(")]
+				out = append(out, name)
+			}
+		}
+	}
+	sort.Strings(out)
+	return out
+}
+
+// writeOverlayJSON builds the `go build -overlay` file: harness overlay files plus a generated test driver
+// for pkgRel. Returns the path of the json file and a cleanup function.
+func writeOverlayJSON(pkgRel string) (string, func(), error) {
+	tmp, err := os.MkdirTemp("", "verif-replay-")
+	if err != nil {
+		return "", nil, err
+	}
+	cleanup := func() { os.RemoveAll(tmp) }
+	repl := map[string]string{}
+	root := filepath.Join(verifRoot, "harness", "overlay")
+	filepath.Walk(root, func(p string, info os.FileInfo, err error) error {
+		if err == nil && !info.IsDir() && strings.HasSuffix(p, ".go") {
+			rel, _ := filepath.Rel(root, p)
+			repl[filepath.Join(repoRoot, rel)] = p
+		}
+		return nil
+	})
+	pkgName, err := packageName(pkgRel)
+	if err != nil {
+		cleanup()
+		return "", nil, err
+	}
+	var sb strings.Builder
+	sb.WriteString("//go:build verif\n\npackage " + pkgName + "\n\nimport (\n\t\"fmt\"\n\t\"os\"\n\t\"testing\"\n\n\trt \"" + modulePath + "/zzverifrt\"\n)\n\n")
+	sb.WriteString("var verifHarnesses = map[string]func(){\n")
+	for _, f := range harnessFuncs(pkgRel) {
+		sb.WriteString("\t\"" + f + "\": " + f + ",\n")
+	}
+	sb.WriteString("}\n\n")
+	sb.WriteString(`func TestVerifReplay(t *testing.T) {
+	name, err := rt.LoadReplay()
+	if err != nil {
+		t.Fatal(err)
+	}
+	h, ok := verifHarnesses[name]
+	if !ok {
+		t.Fatalf("no harness %s", name)
+	}
+	out := rt.RunNative(h)
+	fmt.Fprintf(os.Stdout, "VERIF-REPLAY-OUTCOME %s\n", out)
+	for _, o := range rt.Observed {
+		fmt.Fprintf(os.Stdout, "VERIF-OBSERVE %s\n", o)
+	}
+}
+`)
+	drv := filepath.Join(tmp, "zz_verif_driver_test.go")
+	if err := os.WriteFile(drv, []byte(sb.String()), 0o644); err != nil {
+		cleanup()
+		return "", nil, err
+	}
+	repl[filepath.Join(repoRoot, pkgRel, "zz_verif_driver_test.go")] = drv
+	js, _ := json.Marshal(map[string]interface{}{"Replace": repl})
+	ov := filepath.Join(tmp, "overlay.json")
+	if err := os.WriteFile(ov, js, 0o644); err != nil {
+		cleanup()
+		return "", nil, err
+	}
+	return ov, cleanup, nil
+}
+
+func packageName(pkgRel string) (string, error) {
+	ents, err := os.ReadDir(filepath.Join(repoRoot, pkgRel))
+	if err != nil {
+		return "", err
+	}
+	for _, e := range ents {
+		if strings.HasSuffix(e.Name(), ".go") && !strings.HasSuffix(e.Name(), "_test.go") {
+			b, _ := os.ReadFile(filepath.Join(repoRoot, pkgRel, e.Name()))
+			for _, l := range strings.Split(string(b), "\n") {
+				if strings.HasPrefix(l, "package ") {
+					return strings.Fields(l)[1], nil
+				}
+			}
+		}
+	}
+	return "", fmt.Errorf("no package clause found in %s", pkgRel)
+}
+
+// runReplay runs the native replay of one vector; returns outcome string ("ok","assume","assert:..","panic:..")
+func runReplay(rf *replayFile, path string) (string, string, error) {
+	ov, cleanup, err := writeOverlayJSON(rf.Pkg)
+	if err != nil {
+		return "", "", err
+	}
+	defer cleanup()
+	cmd := exec.Command("go", "test", "-tags", "verif", "-vet=off", "-count=1", "-v", "-run", "^TestVerifReplay$", "-overlay", ov, "-timeout", "120s", ".")
+	cmd.Dir = filepath.Join(repoRoot, rf.Pkg)
+	cmd.Env = append(os.Environ(), "GOFLAGS=-mod=mod", "GOPROXY=off", "GOSUMDB=off", "GOTOOLCHAIN=local", "VERIF_REPLAY="+path)
+	out, _ := cmd.CombinedOutput()
+	txt := string(out)
+	for _, l := range strings.Split(txt, "\n") {
+		if strings.HasPrefix(l, "VERIF-REPLAY-OUTCOME ") {
+			return strings.TrimPrefix(l, "VERIF-REPLAY-OUTCOME "), txt, nil
+		}
+	}
+	// a crash that escaped RunNative (fatal error, os.Exit)
+	if strings.Contains(txt, "panic:") || strings.Contains(txt, "fatal error:") {
+		return "panic:uncaught", txt, nil
+	}
+	return "", txt, fmt.Errorf("replay produced no outcome:\n%s", tail(txt, 30))
+}
+
+func tail(s string, n int) string {
+	ls := strings.Split(strings.TrimRight(s, "\n"), "\n")
+	if len(ls) > n {
+		ls = ls[len(ls)-n:]
+	}
+	return strings.Join(ls, "\n")
+}
+
+func reproduced(kind, label, outcome string) bool {
+	if kind == "assert" {
+		return outcome == "assert:"+label
+	}
+	return strings.HasPrefix(outcome, "panic:")
+}
+
+func cmdReplay(args []string) int {
+	if len(args) < 1 {
+		fmt.Fprintln(os.Stderr, "usage: verif replay <path>")
+		return 2
+	}
+	b, err := os.ReadFile(args[0])
+	if err != nil {
+		fmt.Fprintln(os.Stderr, err)
+		return 3
+	}
+	var rf replayFile
+	if err := json.Unmarshal(b, &rf); err != nil {
+		fmt.Fprintln(os.Stderr, err)
+		return 3
+	}
+	outcome, txt, err := runReplay(&rf, args[0])
+	if err != nil {
+		fmt.Fprintln(os.Stderr, err)
+		return 3
+	}
+	fmt.Printf("replay of %s (%s %q): outcome=%s\n", rf.Harness, rf.Kind, rf.Label, outcome)
+	if reproduced(rf.Kind, rf.Label, outcome) {
+		fmt.Printf("VIOLATION property=%s replay=%s\n", rf.Property, args[0])
+		if len(args) > 1 && args[1] == "-v" {
+			fmt.Println(tail(txt, 40))
+		}
+		return 1
+	}
+	return 0
+}
+
+type harnessEvidence struct {
+	Name        string            `json:"harness"`
+	Entry       string            `json:"entry"`
+	Tier        string            `json:"tier"`
+	Mode        string            `json:"mode"`
+	Bounds      string            `json:"bounds"`
+	Outside     string            `json:"outside_claim"`
+	Unwind      int               `json:"unwind"`
+	Cuts        []string          `json:"cuts,omitempty"`
+	Redirect    map[string]string `json:"redirect,omitempty"`
+	Stubs       []string          `json:"stubs,omitempty"`
+	Assumes     []string          `json:"assumptions,omitempty"`
+	Paths       int               `json:"paths"`
+	Ends        map[string]int    `json:"path_ends"`
+	Decisions   int               `json:"decisions"`
+	Obligations int               `json:"obligations"`
+	Discharged  int               `json:"discharged"`
+	Trivial     int               `json:"discharged_by_constant_folding"`
+	Violations  int               `json:"counterexamples"`
+	Reached     map[string]int    `json:"witnesses_reached"`
+	Queries     int               `json:"solver_queries"`
+	SolverSec   float64           `json:"solver_seconds"`
+	MaxQuerySec float64           `json:"max_query_seconds"`
+	WallSec     float64           `json:"wall_seconds"`
+	Funcs       map[string]string `json:"functions_encoded"`
+	Samples     []string          `json:"sample_paths"`
+	Notes       []string          `json:"notes,omitempty"`
+}
+
+func cmdCheck(args []string) int {
+	t0 := time.Now()
+	if len(args) < 1 {
+		fmt.Fprintln(os.Stderr, "usage: verif check <ID> [--tier quick|thorough]")
+		return 2
+	}
+	id := args[0]
+	fs := flag.NewFlagSet("check", flag.ExitOnError)
+	tier := fs.String("tier", "", "quick|thorough")
+	only := fs.String("only", "", "comma-separated harness names")
+	noReplay := fs.Bool("no-replay", false, "skip native replays")
+	workers := fs.Int("workers", runtime.NumCPU(), "workers")
+	fs.Parse(args[1:])
+	if *tier == "" {
+		*tier = os.Getenv("VERIF_TIER")
+	}
+	if *tier == "" {
+		*tier = "quick"
+	}
+	seed := 0
+	if s := os.Getenv("VERIF_SEED"); s != "" {
+		seed, _ = strconv.Atoi(s)
+	}
+	if id == "C20" {
+		return checkC20(*tier, seed, t0)
+	}
+	reg, err := loadRegistry()
+	if err != nil {
+		fmt.Println("INCONCLUSIVE", err)
+		return 3
+	}
+	var hs []Harness
+	onlySet := map[string]bool{}
+	for _, o := range strings.Split(*only, ",") {
+		if o != "" {
+			onlySet[o] = true
+		}
+	}
+	for _, h := range reg.Harnesses {
+		if h.Property != id {
+			continue
+		}
+		if len(onlySet) > 0 && !onlySet[h.Name] {
+			continue
+		}
+		if h.Tier == "thorough" && *tier != "thorough" {
+			continue
+		}
+		hs = append(hs, h)
+	}
+	if len(hs) == 0 {
+		fmt.Printf("INCONCLUSIVE no harness registered for %s\n", id)
+		return 3
+	}
+	var pkgs []string
+	for _, h := range hs {
+		pkgs = append(pkgs, h.Pkg)
+	}
+	prog, err := loadProgram(pkgs)
+	if err != nil {
+		fmt.Println("INCONCLUSIVE harness does not load against the current tree:", err)
+		writeEvidence(id, *tier, seed, nil, 0, 0, []string{"load failure: " + err.Error()}, time.Since(t0).Seconds(), 0)
+		return 3
+	}
+	loadSec := time.Since(t0).Seconds()
+	known := loadKnown()
+	var evs []harnessEvidence
+	var inconclusive []string
+	violations := 0
+	replays := 0
+	for _, h := range hs {
+		entry := prog.FindFunc(modulePath + "/" + h.Pkg + "." + h.Func)
+		if entry == nil {
+			inconclusive = append(inconclusive, "harness function not found: "+h.Pkg+"."+h.Func)
+			continue
+		}
+		opts := symex.ExploreOpts{Workers: *workers, MaxPaths: h.MaxPaths}
+		if h.Workers > 0 && h.Workers < opts.Workers {
+			opts.Workers = h.Workers
+		}
+		opts.TimeoutMs = 60000
+		if *tier == "thorough" {
+			opts.TimeoutMs = 600000
+		}
+		if h.TimeoutS > 0 {
+			opts.TimeoutMs = h.TimeoutS * 1000
+		}
+		res := symex.Explore(prog, entry, h.config(), opts)
+		fmt.Fprintln(os.Stderr, res.Summary())
+		ev := harnessEvidence{Name: h.Name, Entry: res.Entry, Tier: h.Tier, Mode: h.Mode, Bounds: h.Bounds, Outside: h.Outside, Unwind: h.Unwind,
+			Cuts: h.Cuts, Redirect: h.Redirect, Stubs: h.Stubs, Assumes: h.Assumes, Paths: res.Paths, Ends: res.Ends, Decisions: res.Decisions,
+			Obligations: res.Obligations, Discharged: res.Discharged, Trivial: res.Trivial, Violations: len(res.Violations), Reached: res.Reached,
+			Queries: res.Queries, SolverSec: round2(res.SolverSec), MaxQuerySec: round2(res.MaxQuerySec), WallSec: round2(res.WallSec), Funcs: repoFuncs(res), Samples: res.SamplePaths}
+		for _, inc := range res.Inconclusive() {
+			inconclusive = append(inconclusive, h.Name+": "+inc)
+		}
+		for _, w := range append([]string{"end"}, h.Reach...) {
+			if res.Reached[w] == 0 {
+				inconclusive = append(inconclusive, fmt.Sprintf("%s: witness %q not reachable (vacuous harness?)", h.Name, w))
+			}
+		}
+		// counterexamples: dedupe by kind/label/pos, replay, classify
+		seen := map[string]bool{}
+		for _, v := range res.Violations {
+			key := v.Kind + "|" + v.Label + "|" + v.Pos
+			if seen[key] {
+				continue
+			}
+			seen[key] = true
+			if len(v.Model) == 0 || strings.HasPrefix(v.Model[0], "error") {
+				if len(v.Nondets) > 0 {
+					inconclusive = append(inconclusive, fmt.Sprintf("%s: counterexample without model for %s %q", h.Name, v.Kind, v.Label))
+					continue
+				}
+			}
+			rf := &replayFile{Harness: h.Func, Pkg: h.Pkg, Func: h.Func, Property: id, Kind: v.Kind, Label: v.Label, Pos: v.Pos, Values: v.Model, Names: v.Nondets, Cuts: h.Cuts}
+			js, _ := json.MarshalIndent(rf, "", " ")
+			sum := sha256.Sum256(js)
+			os.MkdirAll(filepath.Join(verifRoot, "replays"), 0o755)
+			rpath := filepath.Join(verifRoot, "replays", fmt.Sprintf("%s-%s-%s.json", id, h.Name, hex.EncodeToString(sum[:4])))
+			os.WriteFile(rpath, js, 0o644)
+			kf := matchKnown(known, id, h.Name, v)
+			if *noReplay {
+				ev.Notes = append(ev.Notes, fmt.Sprintf("counterexample (not replayed): %s %q at %s values=%v", v.Kind, v.Label, v.Pos, v.Model))
+				if kf != nil {
+					fmt.Printf("KNOWN-FINDING: property=%s %s\n", id, kf.What)
+				} else {
+					fmt.Printf("VIOLATION property=%s replay=%s\n", id, rpath)
+					violations++
+				}
+				continue
+			}
+			outcome, txt, err := runReplay(rf, rpath)
+			replays++
+			if err != nil {
+				inconclusive = append(inconclusive, fmt.Sprintf("%s: replay failed: %v", h.Name, err))
+				continue
+			}
+			if !reproduced(v.Kind, v.Label, outcome) {
+				fmt.Printf("SPURIOUS-CEX harness=%s %s %q at %s: native outcome %q (values %v)\n", h.Name, v.Kind, v.Label, v.Pos, outcome, v.Model)
+				inconclusive = append(inconclusive, fmt.Sprintf("%s: counterexample for %s %q did not reproduce natively (outcome %s): encoding or stub is wrong", h.Name, v.Kind, v.Label, outcome))
+				_ = txt
+				continue
+			}
+			ev.Notes = append(ev.Notes, fmt.Sprintf("counterexample reproduced natively: %s %q at %s values=%v outcome=%s", v.Kind, v.Label, v.Pos, v.Model, outcome))
+			if kf != nil {
+				fmt.Printf("KNOWN-FINDING: property=%s %s\n", id, kf.What)
+			} else {
+				fmt.Printf("VIOLATION property=%s replay=%s\n", id, rpath)
+				fmt.Printf("  harness=%s %s %q at %s values=%v\n", h.Name, v.Kind, v.Label, v.Pos, v.Model)
+				violations++
+			}
+		}
+		evs = append(evs, ev)
+	}
+	wall := time.Since(t0).Seconds()
+	writeEvidence(id, *tier, seed, evs, replays, loadSec, inconclusive, wall, violations)
+	for _, inc := range inconclusive {
+		fmt.Println("INCONCLUSIVE", inc)
+	}
+	if violations > 0 {
+		return 1
+	}
+	if len(inconclusive) > 0 {
+		return 3
+	}
+	tot, dis := 0, 0
+	for _, e := range evs {
+		tot += e.Obligations
+		dis += e.Discharged
+	}
+	fmt.Printf("OK property=%s tier=%s harnesses=%d obligations=%d discharged=%d wall=%.1fs\n", id, *tier, len(evs), tot, dis, wall)
+	return 0
+}
+
+func round2(f float64) float64 { return float64(int(f*100+0.5)) / 100 }
+
+// repoFuncs keeps functions of the wallet module and of mass-core (the code under test), with source digests.
+func repoFuncs(res *symex.HarnessResult) map[string]string {
+	out := map[string]string{}
+	for _, f := range res.Funcs {
+		if strings.Contains(f, "massnet.org/mass-wallet") || strings.Contains(f, "massnetorg/mass-core") {
+			if strings.Contains(f, ".init") || strings.Contains(f, "zzverifrt") {
+				continue
+			}
+			out[f] = res.FuncDigests[f]
+		}
+	}
+	return out
+}
+
+func writeEvidence(id, tier string, seed int, evs []harnessEvidence, replays int, loadSec float64, inconclusive []string, wall float64, violations int) {
+	states, trans, obl, dis, queries := 0, 0, 0, 0, 0
+	solverSec := 0.0
+	var samples []interface{}
+	var assumptions []string
+	bounds := []string{}
+	for _, e := range evs {
+		states += e.Paths
+		trans += e.Decisions
+		obl += e.Obligations
+		dis += e.Discharged
+		queries += e.Queries
+		solverSec += e.SolverSec
+		for i, s := range e.Samples {
+			if i < 2 {
+				samples = append(samples, map[string]string{"harness": e.Name, "path": s})
+			}
+		}
+		bounds = append(bounds, e.Name+": "+e.Bounds)
+		for _, a := range e.Assumes {
+			assumptions = append(assumptions, e.Name+": "+a)
+		}
+		for _, s := range e.Stubs {
+			assumptions = append(assumptions, e.Name+": stub "+s)
+		}
+		for _, c := range e.Cuts {
+			assumptions = append(assumptions, e.Name+": cut "+c)
+		}
+		if e.Outside != "" {
+			assumptions = append(assumptions, e.Name+": outside the claim: "+e.Outside)
+		}
+	}
+	if len(samples) == 0 {
+		samples = append(samples, "no path completed")
+	}
+	assumptions = append(assumptions,
+		"z3 4.8.12 is sound on the emitted SMT-LIB2 (unknown/timeout/error are reported as inconclusive, never as held)",
+		"the go/ssa (x/tools v0.29.0) form of the current source is what the compiler builds; engine intrinsics for stdlib leaves (bytealg, math/big, hashes as uninterpreted functions) are faithful",
+		"results hold only inside the stated bounds")
+	if states == 0 {
+		states = 1
+	}
+	if trans == 0 {
+		trans = 1
+	}
+	ev := map[string]interface{}{
+		"property_id": id, "tier": tier, "seed": seed, "level": "model_checking",
+		"coverage": map[string]interface{}{
+			"states": states, "transitions": trans, "traces_validated_against_impl": replays, "samples": samples,
+			"obligations": obl, "discharged": dis, "solver_queries": queries, "solver_seconds": round2(solverSec),
+			"solver": "z3 4.8.12 (one live `z3 -in` per worker, push/pop)", "bounds": bounds, "harnesses": evs,
+			"inconclusive": inconclusive, "package_load_seconds": round2(loadSec),
+			"explanation": "states = feasible symbolic paths explored to completion; transitions = symbolic branch/choice decisions; every obligation (assertion or implicit run-time panic check) was put to the solver as path-condition AND NOT obligation",
+		},
+		"assumptions": assumptions, "wall_s": round2(wall), "violations": violations,
+	}
+	js, _ := json.MarshalIndent(ev, "", " ")
+	os.MkdirAll(filepath.Join(verifRoot, "evidence"), 0o755)
+	os.WriteFile(filepath.Join(verifRoot, "evidence", id+".json"), js, 0o644)
+}
+
+func checkC20(tier string, seed int, t0 time.Time) int {
+	fmt.Println("INCONCLUSIVE syncbmc not built yet")
+	return 3
+}
